@@ -314,7 +314,7 @@ def run_instances(scratch, specs, seed=1, tier="quick", target=None, name="inst"
         exp_path, specs, rej0 = expand.expand_isolating(scratch, specs, name=name + "_x", target=target)
         res["rejected"].update(rej0)
     except expand.ExpandError as e:
-        res["build_error"] = "expansion failed:\n" + str(e)
+        res["build_error"] = "expansion failed:\n" + str(e)[-6000:]
         return res
     ext = expand.vx_extract(exp_path)
     mods = {m["mod"]: m for m in ext["mods"]}
